@@ -155,6 +155,20 @@ def seq_proc(lib, p11drv, seed, idx, shim):
             # another process looks: it must see exactly the committed state
             b = rng.choice([x for x in range(nproc) if x != a])
             B = procs[b]
+            if op in ('setlabel', 'setapp') and ghost and trace and trace[-1][1].get('rv') == '0x0' and trace[-1][0].split()[1] == 'setattr':
+                # first a search BY the changed attribute (before anything re-reads the object through a handle): the template
+                # is matched against what is committed now, not against what this process has cached
+                (at, newv) = trace[-1][0].split()[-1].split('=x:')
+                for (val, want) in ((newv, 1),) + (((lab, 0),) if op == 'setlabel' else ()):
+                    B.p.op('findfinal %s' % B.s)
+                    B.p.op('findinit %s %s=x:%s' % (B.s, at, val))
+                    fr = B.p.op('find %s 50' % B.s)
+                    B.p.op('findfinal %s' % B.s)
+                    n_ = len([x for x in fr.get('objs', '').split(',') if x])
+                    trace.append(('P%d search %s=%s' % (b, at, val), {'rv': fr.get('rv'), 'n': n_}))
+                    stats['template_searches'] = stats.get('template_searches', 0) + 1
+                    if n_ != want:
+                        bad('process %d searching by attribute %s = %s finds %d object(s) after process %d committed the change (expected %d)' % (b, at, bytes.fromhex(val).decode('latin1'), n_, a, want))
             v = B.look()
             stats['cross_views'] += 1
             trace.append(('P%d look' % b, {'rv': '0x0', 'n': len(v or {})}))
